@@ -155,20 +155,34 @@ def parseDate (cfg : Cfg) (env : Env) (dflt : Nat) (brs : List Branch) (s : Stri
 
 /-! ### what the writers put on the wire
 
-`"{date:%Y-%m-%dT%H:%M:%S.%f}"` / `date.strftime(DATE_FMT_DEFAULT)`: the clock reading of the date's OWN scale
-(`Date.datetime`), whatever `TIME_SYSTEM` says. -/
+Every epoch of a message but the head's goes through `in_scale(date, head.scale)` (commons.py, since fix aa1842c):
+a date labelled otherwise than the message's TIME_SYSTEM is converted with `change_scale`, then formatted with
+`"{date:%Y-%m-%dT%H:%M:%S.%f}"` / `date.strftime(DATE_FMT_DEFAULT)`, i.e. as the clock reading `Date.datetime` of the
+converted date.  Before the fix each epoch was printed as the clock reading of its OWN scale (`Message.dumpOwnScale`,
+kept for the regression witness). -/
 
-/-- the epoch a writer emits for a date: its own-scale clock reading in microseconds -/
+/-- the clock reading a date shows when formatted: its own-scale `datetime` in microseconds -/
 def written (x : Date) : Int := x.datetime
 
+/-- `in_scale(date, scale)`: `date.change_scale(scale.name)` when the names differ, the date itself otherwise -/
+def inScale (cfg : Cfg) (env : Env) (x : Date) (ts : Nat) : Except Err Date :=
+  if x.scale ≠ ts then changeScale cfg env x ts else .ok x
+
 /-- a message as the writers see it: the date that decides `TIME_SYSTEM` (`data.date` of an OPM/OMM, `data.start` of an
-OEM) and the other epochs (maneuvers, ephemeris points, covariance epochs) -/
+OEM, `measure_set.start` of a TDM segment) and the other epochs (maneuvers, ephemeris points, covariance epochs,
+STOP_TIME, observations) -/
 structure Message where
   head : Date
   others : List Date
 
-/-- `TIME_SYSTEM` and the epochs as written -/
-def Message.dump (m : Message) : Nat × List Int := (m.head.scale, (m.head :: m.others).map written)
+/-- `TIME_SYSTEM` and the epochs as written: the head as it is, every other epoch through `in_scale` -/
+def Message.dump (cfg : Cfg) (env : Env) (m : Message) : Except Err (Nat × List Int) :=
+  match m.others.mapM (fun x => inScale cfg env x m.head.scale) with
+  | .ok l => .ok (m.head.scale, written m.head :: l.map written)
+  | .error e => .error e
+
+/-- the writers before aa1842c: every epoch as the clock reading of its own scale -/
+def Message.dumpOwnScale (m : Message) : Nat × List Int := (m.head.scale, (m.head :: m.others).map written)
 
 /-- every epoch read back in `TIME_SYSTEM` -/
 def load (cfg : Cfg) (env : Env) (w : Nat × List Int) : List (Except Err Date) := w.2.map (ofDatetime cfg env w.1)
